@@ -3117,7 +3117,9 @@ def groupby_scan(
 
     (single_axis,) = axis_  # type: ignore[misc]
     # avoid some roundoff error when we can.
-    if by_.shape[-1] == 1 or by_.shape == grp_shape:
+    # (every element is its own group; a NaN-skipping cumulative sum still has to replace NaN by 0)
+    nan_to_identity = agg.name == "nancumsum" and array.dtype.kind in "fc"
+    if (by_.shape[-1] == 1 or by_.shape == grp_shape) and not nan_to_identity:
         array = array.astype(agg.dtype)
         if cast_to is not None:
             array = array.astype(cast_to)
